@@ -124,6 +124,11 @@ def gen_inputs(ctx, n_random, theme_depth):
     """(input, container) pairs: witnesses, every string of <= theme_depth fragments of the formatting / table theme alphabets,
     repo test strings, soup, mutations, adoption/foster-heavy random markup"""
     docs = list(WITNESSES)
+    # boundary sweeps around the loop bounds / comparisons of the algorithm (shared with C01): both builders must agree
+    from . import c01
+    docs += [x for i, x in enumerate(c01.sweep_inputs()) if i % 3 == 0 or "id=1" in x[0]]
+    docs += [("<p><b x=1 y=2><b x=1 y=2><b x=1 y=2><b y=2 x=1></p>z", None), ("<p><a x=1 y=2><a y=2 x=1>z", None),
+             ("<div><i a=1 b=2 c=3><i c=3 a=1 b=2><i b=2 c=3 a=1><i a=1 c=3 b=2></div>z", "div")]
     for theme, depth in theme_depth:
         for s in theme_strings(theme, depth):
             docs.append((s, None))
